@@ -23,7 +23,7 @@ pub const OTHERS: [&str; 28] = [
 ];
 const KINDS: usize = 12;
 const SWITCH: usize = 3;
-const FORMS: usize = 16;
+const FORMS: usize = 19;
 const USERS: usize = 5;
 
 fn forms(n: &str) -> Vec<String> {
@@ -44,6 +44,10 @@ fn forms(n: &str) -> Vec<String> {
         format!("{}(q = 5)", n),
         format!("{}\u{a0}x", n),
         format!("m\u{2003}{}\u{b}1", n),
+        // a line break is a blank like any other
+        format!("{}\nx", n),
+        format!("{}\n(x)", n),
+        format!("m {}\r\n x", n),
     ]
 }
 
